@@ -5,6 +5,7 @@ from ..core import Acc, Violation, run_hypothesis, shard_seed
 PROPERTY = 'C01'
 FO_RULE = ' Date-times whose tzinfo is a bare UTC offset (every quarter hour from -14:00 to +14:00 and odd offsets, at six instants): the writer may refuse them, but what it writes must denote the same instant at the same offset.'
 SIZES_RULE = ' Size sweep: one dimension of the document at a time (rows, columns, grid/column metadata tags, list items, dict tags, string/URI/Ref-display/XStr length, grids per document, rows of a nested grid, distinct string cells, distinct numbers/dates/times, digits, nested lists/dicts) is pushed over every power-of-two and power-of-ten boundary up to the limits in gen.SIZE_LIMIT and judged by the same oracle.'
+IND_RULE = ' Independent results: after a round trip the caller overwrites and extends every mutable part of the parsed grids (metadata, column metadata, row dicts, list and dict cells, nested grids) and then of the dumped grids; a second parse of the same text, a further round trip of the same model and (JSON) the pre-decoded input object must be unaffected.'
 FMT = 'zinc'
 RULE = ('model grids over the Haystack value domain of DESIGN.md 1.4 (every kind in grid meta / column meta / cells / list '
         'items / dict values / nested-grid cells, all code points, boundary floats, all mapped zones, nesting <= 3, '
@@ -12,7 +13,7 @@ RULE = ('model grids over the Haystack value domain of DESIGN.md 1.4 (every kind
         '(boundary payloads per kind, every zone, every kind in every position) and the scalar path '
         'parse_scalar(dump_scalar(v)). Oracle: kind-strict model comparison of the parsed result with the input '
         '(own comparator, not Grid.__eq__). Non-trivial = at least one non-null value somewhere in the grid / a '
-        'non-null scalar; distinct by canonical hash of the model.' + SIZES_RULE + ' After a refused dump (a cell of no Haystack kind, a zone-less date-time, NA in a 2.0 grid - in the grid itself, in a grid nested in it, or in the grid that encloses it) and repair of that cell, the same Grid object must round-trip alone, twice in one document and nested.' + FO_RULE)
+        'non-null scalar; distinct by canonical hash of the model.' + SIZES_RULE + ' After a refused dump (a cell of no Haystack kind, a zone-less date-time, NA in a 2.0 grid - in the grid itself, in a grid nested in it, or in the grid that encloses it) and repair of that cell, the same Grid object must round-trip alone, twice in one document and nested.' + FO_RULE + IND_RULE)
 ASSUMPTIONS = ['value domain restrictions of DESIGN.md 1.4 (tag-name syntax, unit alphabet not starting with "_", '
                'Quantity values finite, years 2..9998 for date-times, xstr type name other than "Bin")',
                'a missing row key and a None cell are the same cell']
@@ -28,6 +29,7 @@ def plan(tier, seed, excl):
     t += [('sizes', {'shard': i, 'of': 16, 'tier': tier}) for i in range(16)]
     t.append(('after-failed-dump', {}))
     t.append(('fixed-offset', {}))
+    t += [('independent-results', {'shard': i, 'of': 4, 'n': 120 if q else 1500}) for i in range(4)]
     t += [('grids', {'shard': i, 'n': 700 if q else 8000}) for i in range(16)]
     return t
 
@@ -77,6 +79,33 @@ def run(part, args, env, fmt=FMT):
         acc.sample({'kind': 'after-failed', 'grids': n})
     elif part == 'fixed-offset':
         rt.fixed_offset_part(acc, fmt, 'own')
+    elif part == 'independent-results':
+        for i, m in enumerate(gen.catalogue_grids(excl)):
+            if i % args['of'] != args['shard']:
+                continue
+            case = {'kind': 'scribble', 'single': i % 3 != 0, 'grids': [m] if i % 3 else [m, m]}
+            acc.case(case, rt.doc_nontrivial([m]), labels=rt.labels_for([m]) | {'scribble'})
+            try:
+                rt.check_independent_results(case, fmt)
+            except Violation as v:
+                acc.violation(v)
+        for ver in ('2.0', '3.0'):
+            for m in gen.catalogue_scalars(ver, excl):
+                if m[0] in ('list', 'dict', 'grid'):
+                    case = {'kind': 'scribble-scalar', 'ver': ver, 'value': m}
+                    acc.case(case, True, labels=('scribble-scalar',))
+                    try:
+                        rt.check_independent_scalar(case, fmt)
+                    except Violation as v:
+                        acc.violation(v)
+        strat = gen.grid_docs(excl, depth=2).map(lambda d: {'kind': 'scribble', 'single': d['single'], 'grids': d['grids']})
+
+        def body(case):
+            acc.case(case, rt.doc_nontrivial(case['grids']), labels=rt.labels_for(case['grids']) | {'scribble'})
+            if acc.want_sample() and len(repr(case)) < 1500:
+                acc.sample(case)
+            rt.check_independent_results(case, fmt)
+        run_hypothesis(acc, body, strat, args['n'], shard_seed(env['seed'], PROPERTY, fmt, 'ind', args['shard']))
     elif part == 'sizes':
         sizes_part(acc, args, lambda case: rt.check_doc(case, fmt), {'form': 'text'})
     elif part == 'scalars':
@@ -134,6 +163,10 @@ def replay(stage, case, fmt=FMT):
         return rt.check_fixed_offset(case, fmt, 'own')
     if case['kind'] == 'after-failed':
         return rt.check_after_failed(case, fmt)
+    if case['kind'] == 'scribble':
+        return rt.check_independent_results(case, fmt)
+    if case['kind'] == 'scribble-scalar':
+        return rt.check_independent_scalar(case, fmt)
     if case['kind'] == 'scalar':
         rt.check_scalar(case, fmt)
     else:
